@@ -2,7 +2,7 @@
 import ast
 
 from ..report import Inconclusive
-from ..py.eff import FRESH, Eff, nonfresh
+from ..py.eff import FRESH, Eff, nonfresh, base_origin
 from ..py.index import Index, u
 from . import common
 
@@ -45,9 +45,9 @@ def positive_control(rep):
     ix = Index(sources=CONTROL)
     E = Eff(ix)
     E.solve()
-    rep.check("PARAM:p" in E.summ["m.ro"].mutates, "C13.0", "embedded ro()", "store into an element of p.operations is reported as a mutation of parameter p")
-    rep.check(not E.summ["m.deep"].mutates and "PARAM:p" not in E.summ["m.deep"].ret.reach, "C13.0", "embedded deep()", "deepcopy result may be mutated and returned")
-    rep.check("PARAM:p" in E.summ["m.shallow"].ret.reach, "C13.0", "embedded shallow()", "copy.copy result is reported as sharing state with p")
+    rep.check("IN:PARAM:p" in E.summ["m.ro"].mutates, "C13.0", "embedded ro()", "store into an element of p.operations is reported as a mutation of parameter p")
+    rep.check(not E.summ["m.deep"].mutates and not nonfresh(E.summ["m.deep"].ret.reach), "C13.0", "embedded deep()", "deepcopy result may be mutated and returned")
+    rep.check("IN:PARAM:p" in E.summ["m.shallow"].ret.reach, "C13.0", "embedded shallow()", "copy.copy result is reported as sharing state with p")
 
 
 def event_text(e):
@@ -70,7 +70,7 @@ def c13_1(rep, E, ix):
         evs = E.events.get(q, [])
         n = 0
         for e in evs:
-            bad = [o for o in nonfresh(e.target.self_o) if not (o.startswith("PARAM:") and o[6:] in exempt)]
+            bad = [o for o in nonfresh(e.target.self_o) if not (base_origin(o).startswith("PARAM:") and base_origin(o)[6:] in exempt)]
             txt = event_text(e)
             if bad:
                 rep.bad("C13.1", ix.site(f, e.node), "mutation `%s` targets only freshly created objects" % txt,
@@ -97,7 +97,7 @@ def c13_2(rep, E, ix):
     s = E.summ[q]
     if s.ret is None:
         raise Inconclusive("__call__ has no return value")
-    shared = [o for o in nonfresh(s.ret.reach) if o != "PARAM:kwargs"]
+    shared = [o for o in nonfresh(s.ret.reach) if base_origin(o) != "PARAM:kwargs"]
     rep.check(not shared, "C13.2", ix.site(f), "the program returned by __call__ is deep-fresh with respect to the template and module state",
               "the returned object may contain or be %s" % ", ".join(shared), key=q + "|return")
     live = sorted(g for g in s.reads_globals if g in E.written_globals)
